@@ -16,6 +16,12 @@ namespace err = logmessage::runtime;
 using namespace sqf::runtime;
 using namespace sqf::types;
 
+// A marker as createMarker leaves it: an icon of size 1 at the origin, fully visible, not turned
+sqf::operators::markers_storage::marker::marker() :
+    mcolor("Default"), mbrush("Solid"), msize({ 1, 1 }), mpos({ 0, 0, 0 }), malpha(1), mdirection(0), mshape(shape::Icon)
+{
+}
+
 namespace
 {
     value allmapmarkers_(runtime& runtime)
@@ -143,7 +149,10 @@ namespace
         auto arr = right.data<d_array>();
         std::array<float, 3> pos {0, 0, 0};
         std::string name;
-        if (arr->check_type(runtime, std::array<type, 2> { t_string(), t_object()}))
+        // The kind of the second element decides which of the two forms is meant (checking the other form first
+        // reported an error for every well-formed call of this one)
+        bool position_form = arr->size() == 2 && arr->at(1).is<t_array>();
+        if (!position_form && arr->check_type(runtime, std::array<type, 2> { t_string(), t_object()}))
         {
             name = arr->at(0).data<d_string, std::string>();
             auto objdata = arr->at(1).data<d_object>();
@@ -157,7 +166,7 @@ namespace
             auto tmp = obj->position();
             pos = std::array<float, 3> { static_cast<float>(tmp.x), static_cast<float>(tmp.y), static_cast<float>(tmp.z)};
         }
-        else if (arr->check_type(runtime, std::array<type, 2> { t_string(), t_array() }))
+        else if (position_form && arr->check_type(runtime, std::array<type, 2> { t_string(), t_array() }))
         {
             name = arr->at(0).data<d_string, std::string>();
             auto tmpArr = arr->at(1).data<d_array>();
@@ -183,8 +192,10 @@ namespace
             runtime.__logmsg(err::ReturningEmptyString(runtime.context_active().current_frame().diag_info_from_position()));
             return "";
         }
-        auto& marker = runtime.storage<sqf::operators::markers_storage>().at(name);
+        // The marker does not exist yet: it is created here
+        sqf::operators::markers_storage::marker marker;
         marker.set_pos(pos);
+        runtime.storage<sqf::operators::markers_storage>().set(name, marker);
         return name;
     }
     value deletemarker_string(runtime& runtime, value::cref right)
